@@ -16,7 +16,8 @@ ASSUMPTIONS = [
     "time by Python for hashability; typed=False collisions True==1 are harmless because fss is a tuple of bools at every call site",
     "a caller outside the analysed files that mutates a returned cached object is not seen (all in-package callers are analysed)",
 ]
-NOT_DECIDED = ["bounded cold/warm/resized relational run (bit-identical results) was not built"]
+NOT_DECIDED = ["bit-identity of results across cache regimes for ALL programs: only the bounded relational run (tools/cache_relational.py: 30 configurations with "
+               "coinciding layouts x 16 operations x 7 regimes) -- not a proof; the proof part is R/W/O/K on the memoised functions"]
 
 SCOPE = FILES
 
@@ -57,6 +58,36 @@ def key_obligations(obligations, details):
     oid = "K::key-components-observed"
     obligations[oid] = 'proved' if len(kinds) >= 20 else 'undecided'
     details[oid] = f"{len(kinds)} (function, argument) key components observed"
+
+
+def relational_obligations(root, obligations, details):
+    """
+    runs tools/cache_relational.py in a subprocess on the tree under verification; one BOUNDED obligation per cache regime
+    (`bounded:relational::<regime>`), failed if any (configuration, operation) differs bit-wise from the cold run
+    """
+    import json
+    import subprocess
+    import sys
+    here = os.path.dirname(os.path.dirname(os.path.abspath(__file__)))
+    env = dict(os.environ, PYTHONPATH=root, OMP_NUM_THREADS='1', PYTHONDONTWRITEBYTECODE='1')
+    r = subprocess.run([sys.executable, os.path.join(here, 'tools', 'cache_relational.py')], capture_output=True, text=True, env=env, timeout=1800)
+    try:
+        rep = json.loads(r.stdout.strip().splitlines()[-1])
+    except Exception:            # noqa
+        obligations['bounded:relational::program-runs'] = 'undecided'
+        details['bounded:relational::program-runs'] = (r.stderr or r.stdout)[-400:]
+        return {'operations': 0, 'regimes': 0}
+    obligations['bounded:relational::program-runs'] = 'proved'
+    details['bounded:relational::program-runs'] = f"{rep['operations']} (configuration, operation) pairs, {len(rep['regimes'])} cache regimes"
+    for reg in rep['regimes']:
+        bad = [m for m in rep['mismatches'] if m['regime'] == reg]
+        oid = f"bounded:relational::{reg}:results-bit-identical-to-the-cold-run"
+        obligations[oid] = 'failed' if bad else 'proved'
+        details[oid] = ('differs for ' + '; '.join(f"{m['configuration']}:{m['operation']}" for m in bad[:6])) if bad else f"{rep['operations']} results identical"
+    oid = 'bounded:relational::get_cache_info-lists-18-caches'
+    obligations[oid] = 'proved' if rep.get('administered') == 18 else 'failed'
+    details[oid] = f"{rep.get('administered')} caches reported"
+    return {'operations': rep['operations'], 'regimes': len(rep['regimes']), 'obligations': len(rep['regimes']) + 2}
 
 
 def run_check(args, seed):
@@ -148,6 +179,9 @@ def run_check(args, seed):
                     details[oid] = 'administered function is not decorated with lru_cache'
     # ---- K: key adequacy, observed while the SMT packs interpret calls THROUGH the cache wrappers ----------------------
     key_obligations(obligations, details)
+    # ---- bounded relational run (never counted as proved): cold vs warm / reordered / resized / cleared, bit for bit ----------
+    bounded = relational_obligations(root, obligations, details)
     funcs = [f.key for f in cached_funcs]
     return finish(PROPERTY, args, seed, t0, obligations, details, funcs, ASSUMPTIONS, NOT_DECIDED, f"./check C16 --tier {args.tier}",
-                  extra={'memoised_functions': len(cached_funcs), 'files_analysed': SCOPE})
+                  extra={'memoised_functions': len(cached_funcs), 'files_analysed': SCOPE,
+                         'bounded': dict(bounded, rule="runtime-checked relational run over an enumerated program; never counted in obligations/discharged")})
